@@ -466,6 +466,26 @@ pub fn c10(opts: &Opts, out: &mut Out) {
             }
         }
     }
+    // the two recovering modes agree member by member in MIXED batches too (a seeded single after a larger aggregate,
+    // before one, between two): whatever one mode keeps between members, the other keeps alike
+    for (n, t) in [(4usize, 1usize), (8, 2)] {
+        let seeded: Vec<Inst> = (0..2).map(|_| fmrun::random_inst(n, 1, 4, t, 4, true, &mut rng)).collect();
+        let aggs: Vec<Inst> = [2usize, 4].iter().map(|m| fmrun::random_inst(n, *m, 4, t, 4, false, &mut rng)).collect();
+        let all: Vec<&Inst> = vec![&aggs[1], &seeded[0], &aggs[0], &seeded[1], &aggs[1]];
+        let proofs: Vec<Proof> = all.iter().map(|i| i.prove(&mut rng).unwrap()).collect();
+        for order in [vec![0usize, 1], vec![1, 0], vec![0, 1, 2, 3, 4], vec![3, 2, 1, 0], vec![2, 3, 0, 1]] {
+            let run = |a: VerifyAction| {
+                let mut ts: Vec<_> = order.iter().map(|i| all[*i].transcript()).collect();
+                let ss: Vec<Stmt> = order.iter().map(|i| all[*i].statement()).collect();
+                let ps: Vec<Proof> = order.iter().map(|i| proofs[*i].clone()).collect();
+                masks_of(&Proof::verify_batch(&mut ts, &ss, &ps, a))
+            };
+            let (rv, ro) = (run(VerifyAction::RecoverAndVerify), run(VerifyAction::RecoverOnly));
+            let expect: Vec<Option<Vec<Scalar>>> = order.iter().map(|i| all[*i].seed.map(|_| all[*i].blindings[0].clone())).collect();
+            out.oracle("C10:recover-only-same-masks", rv.is_some() && rv == ro, &format!("mixed batch n={} t={} order {:?}", n, t, order), "recover-only and recover-and-verify return different masks for a batch of valid members");
+            out.oracle("C10:same-seed-true-mask", rv.as_ref() == Some(&expect), &format!("mixed batch n={} t={} order {:?}", n, t, order), "a seeded member of a mixed batch does not get its true mask");
+        }
+    }
     out.stat("distinct_classes", classes.len());
     out.case("bits {1,2,8,16,64} x degree {1,2,3,6} x proof {valid, invalid} x seed {same, none, +1, zero, random} x 3 modes".into());
 }
